@@ -199,6 +199,14 @@ func (p *Program) Method(pkg, tname, name string) *ssa.Function {
 			}
 		}
 	}
+	// a method of a generic type: the function built for its declaration
+	for i := 0; i < n.NumMethods(); i++ {
+		if m := n.Method(i); m.Name() == name {
+			if g := p.SSA.FuncValue(m); g != nil && len(g.Blocks) > 0 {
+				return g
+			}
+		}
+	}
 	return nil
 }
 
